@@ -56,20 +56,26 @@ def tlc_flows(chk, thorough):
     re-permission | deactivate | txexec, txexec | switch, commit, call) for every permission pair, simulated free flows,
     the code model of the binding (must satisfy the policy) and the same model with NewTx(ReadWrite) gated by the read
     permission only (must NOT: shows that the model and the invariants have teeth for this class)"""
-    out = {}
-    out["phased"] = vlib.run_tlc("Auth", "flow.cfg", workers=4, timeout=900, tag="C18flow",
-                                 files=[("flow.cfg", cfg("flow", nsess=1, maxsteps=6, spec="FlowSpec", invs="TypeOK EmitFlow", view="", phased=True))])
+    def phased():
+        return vlib.run_tlc("Auth", "flow.cfg", workers=4, timeout=900, tag="C18flow",
+                            files=[("flow.cfg", cfg("flow", nsess=1, maxsteps=6, spec="FlowSpec", invs="TypeOK EmitFlow", view="", phased=True))])
+
+    def sim():
+        return vlib.run_tlc("Auth", "flow.cfg", workers=1, timeout=600, tag="C18flow",
+                            files=[("flow.cfg", cfg("flow", nsess=1, maxsteps=6, spec="FlowSpec", invs="TypeOK EmitFlow", view=""))],
+                            extra=["-simulate", "num=%d" % (400 if thorough else 60), "-depth", "8", "-seed", str(chk.seed)])
+
+    def code(gate):
+        return vlib.run_tlc("Auth", "flow.cfg", workers=2, timeout=900, tag="C18flow",
+                            files=[("flow.cfg", cfg("flowcode", nsess=1, maxsteps=1000, spec="FlowSpec", invs=FLOW_INVS, view="VIEW FlowView", qgate=gate))])
+
+    with cf.ThreadPoolExecutor(4) as ex:
+        fp, fs, fd, fg = ex.submit(phased), ex.submit(sim), ex.submit(code, False), ex.submit(code, True)
+        out = {"phased": fp.result(), "sim": fs.result(), "design": fd.result(), "gate": fg.result()}
     vlib.tlc_must_pass(out["phased"], "Auth flows (phased)")
-    out["sim"] = vlib.run_tlc("Auth", "flow.cfg", workers=1, timeout=600, tag="C18flow",
-                              files=[("flow.cfg", cfg("flow", nsess=1, maxsteps=6, spec="FlowSpec", invs="TypeOK EmitFlow", view=""))],
-                              extra=["-simulate", "num=%d" % (400 if thorough else 60), "-depth", "8", "-seed", str(chk.seed)])
     if out["sim"].error or out["sim"].violation:
         raise MachineryFault("Auth flow simulation: %s %s" % (out["sim"].error, out["sim"].violation))
-    out["design"] = vlib.run_tlc("Auth", "flow.cfg", workers=2, timeout=900, tag="C18flow",
-                                 files=[("flow.cfg", cfg("flowcode", nsess=1, maxsteps=1000, spec="FlowSpec", invs=FLOW_INVS, view="VIEW FlowView"))])
     vlib.tlc_must_pass(out["design"], "Auth flow code model (transaction bound at NewTx, privileges checked on the selected database)")
-    out["gate"] = vlib.run_tlc("Auth", "flow.cfg", workers=2, timeout=900, tag="C18flow",
-                               files=[("flow.cfg", cfg("flowcode", nsess=1, maxsteps=1000, spec="FlowSpec", invs=FLOW_INVS, view="VIEW FlowView", qgate=True))])
     if out["gate"].error:
         raise MachineryFault("Auth flow code model with the read gate: " + out["gate"].error)
     if out["gate"].violation != "WriteNeedsRW":
